@@ -716,6 +716,26 @@ pub fn build(full_name: &str, level: u8) -> Option<Scenario> {
             if n.contains("-mix") {
                 s.clients_at = vec![1];
             }
+            if n.contains("-mix") && n.contains("-page") {
+                // one committed entry per Ready everywhere, every application lags: a follower
+                // that times out scans an unapplied backlog [normal, conf change] page by page
+                for nd in s.nodes.iter_mut() {
+                    nd.max_committed_size_per_ready = 1;
+                    nd.apply_lag = true;
+                }
+                s = Scenario { nodes: s.nodes[..3].to_vec(), ..s };
+                s.cc_menu = vec![CcSpec::V1(1, 3)];
+                s.timeoutable = vec![2];
+                // [normal, remove 3] is committed everywhere and applied nowhere
+                s.prefix = vec![
+                    Action::Timeout(1),
+                    Action::Settle,
+                    Action::HoldApply(true),
+                    Action::ProposeMix(1, 0),
+                    Action::Settle,
+                    Action::HoldApply(false),
+                ];
+            }
             let c4 = n.contains("-c4");
             if c4 {
                 // the spare node 4 is made a voter; it may be asked for its vote before its own
@@ -745,6 +765,7 @@ pub fn build(full_name: &str, level: u8) -> Option<Scenario> {
                 1 if two => (1, 1, 1, 0, 3, 6, 1, 1),
                 2 if two => (1, 2, 2, 1, 3, 7, 1, 1),
                 0 | 1 if n.contains("-rm1") => (1, l as u8, 2, 0, 3, 6, 0, 1),
+                0 | 1 if n.contains("-mix") && n.contains("-page") => (0, 0, 1, 0, 3, 7, 0, 1),
                 0 | 1 if n.contains("-mix") => (2, 1, 0, 0, 2, 7, 0, 1),
                 0 | 1 if n.contains("-fasync") => (1, l as u8, 1, 0, 3, 6, 0, 1),
                 0 => (1, 0, 0, 0, 2, 5, 0, 1),
@@ -1120,6 +1141,14 @@ pub fn build(full_name: &str, level: u8) -> Option<Scenario> {
                     nd.heartbeat_tick = 2;
                 }
             }
+            if n.contains("-lost") {
+                // the start state already holds a pending transfer whose MsgTimeoutNow was lost
+                s.prefix.extend(vec![Action::Transfer(1, 2), Action::Settle0(1), Action::DropAll]);
+            }
+            if abort && l == 0 {
+                // level 0: the only loss is that of the MsgTimeoutNow
+                s.fault_types = vec![raft::eraftpb::MessageType::MsgTimeoutNow as u8];
+            }
             let race = n.contains("-race");
             if race {
                 // the transfer target's forced campaign races with an ordinary election of
@@ -1138,7 +1167,7 @@ pub fn build(full_name: &str, level: u8) -> Option<Scenario> {
                 1 if n.contains("-cc") => (1, 1, 1, 1, 0, 1, 3),
                 0 if pipe => (1, 2, 0, 1, 0, 0, 3),
                 1 if pipe => (1, 2, 1, 1, 1, 0, 3),
-                0 if abort => (1, 1, 3, 0, 0, 0, 3),
+                0 if abort => (1, 1, 3, 1, 0, 0, 3),
                 1 if abort => (1, 1, 4, 1, 0, 0, 3),
                 2 if abort => (2, 1, 4, 1, 1, 0, 3),
                 0 => (1, 0, 0, 0, 0, 0, 3),
@@ -1159,6 +1188,12 @@ pub fn build(full_name: &str, level: u8) -> Option<Scenario> {
                 c.ccs = ccs;
                 if race {
                     c.timeouts = 1 + (l as u8) / 2;
+                }
+                if n.contains("-lost") {
+                    c.transfers = 0;
+                    c.drops = 0;
+                    c.props = (l as u8).min(1);
+                    c.beats = 2 + l as u8;
                 }
             });
         }
